@@ -10,8 +10,8 @@ import Gimli.Model.Eval
 namespace Gimli.WOp
 open Gimli.Eval
 
-/-- same reader position and bytecode -/
-def Same (m m' : Mach) : Prop := m'.pc = m.pc ∧ m'.bytecode = m.bytecode
+/-- same reader position, bytecode and expression (call) stack -/
+def Same (m m' : Mach) : Prop := m'.pc = m.pc ∧ m'.bytecode = m.bytecode ∧ m'.exprStack = m.exprStack
 
 structure Keeps {α} (P : Mach → Prop) (x : Out (α × Mach)) : Prop where
   out : ∀ a m', x = .ok (a, m') → P m'
@@ -93,7 +93,7 @@ theorem unop_keeps (c : Config) (f) (m0 m1 : Mach) (h : Same m0 m1) : Keeps (Sam
   refine keeps_bind_any _ _ _ (fun _ => ?_)
   exact keeps_bind_mach _ _ _ (push_keeps _ _ _ _ h2) (fun m4 h4 => keeps_pure _ _ _ h4)
 
-theorem same_refl (m : Mach) : Same m m := ⟨rfl, rfl⟩
+theorem same_refl (m : Mach) : Same m m := ⟨rfl, rfl, rfl⟩
 
 macro "keeps_tac" : tactic => `(tactic|
   repeat (first
@@ -113,7 +113,7 @@ macro "keeps_tac" : tactic => `(tactic|
     | (intro _ _; try dsimp only)
     | (intro _; try dsimp only)))
 
-/-- every operation except the two branches leaves the reader position and the bytecode alone -/
+/-- every operation except the two branches leaves the reader position, the bytecode and the expression stack alone -/
 theorem execute_keeps (c : Config) (op : Op.Operation) (m : Mach)
     (hs : ∀ t, op ≠ .skip t) (hb : ∀ t, op ≠ .bra t) : Keeps (Same m) (execute c op m) := by
   have h0 := same_refl m
